@@ -134,20 +134,21 @@ func (s *vTraceStateC11) addIndex(name string, buf []byte, strict bool) error {
 	if err := json.Unmarshal(p, &idx); err != nil {
 		return fmt.Errorf("cannot parse: %w", err)
 	}
+	var first error
 	for _, pk := range idx.Packs {
 		pdata, ok := s.files[vbe.Key{Type: backend.PackFile, Name: pk.ID}]
-		if strict && !ok {
-			return fmt.Errorf("index %s names pack %s which has not been saved yet", name[:8], pk.ID[:8])
+		if strict && !ok && first == nil {
+			first = fmt.Errorf("index %s names pack %s which has not been saved yet", name[:8], pk.ID[:8])
 		}
 		for _, b := range pk.Blobs {
-			if ok && uint64(b.Offset)+uint64(b.Length) > uint64(len(pdata)) {
-				return fmt.Errorf("index %s: blob %s at %d+%d beyond the end of pack %s (%d bytes)", name[:8], b.ID[:8], b.Offset, b.Length, pk.ID[:8], len(pdata))
+			if ok && uint64(b.Offset)+uint64(b.Length) > uint64(len(pdata)) && first == nil {
+				first = fmt.Errorf("index %s: blob %s at %d+%d beyond the end of pack %s (%d bytes)", name[:8], b.ID[:8], b.Offset, b.Length, pk.ID[:8], len(pdata))
 			}
 			key := b.Type + "/" + b.ID
 			s.blobs[key] = append(s.blobs[key], vBlobRefC11{Pack: pk.ID, Type: b.Type, Offset: b.Offset, Length: b.Length, ULen: b.ULen})
 		}
 	}
-	return nil
+	return first
 }
 
 // locate returns an indexed location of the blob whose pack is present.
@@ -251,33 +252,27 @@ func (s *vTraceStateC11) Step(op vbe.Op, addOnly bool) error {
 	if old, ok := s.files[op.Key]; ok && addOnly && op.Key.Type != backend.LockFile && string(old) != string(op.Data) {
 		return fmt.Errorf("writer overwrote %s with different content", op.Key)
 	}
+	// the operation is always applied and counted; the first finding about it is returned
+	var err error
 	switch op.Key.Type {
 	case backend.PackFile:
 		h := sha256.Sum256(op.Data)
 		if hex.EncodeToString(h[:]) != op.Key.Name {
-			return fmt.Errorf("pack %s saved under a name that is not its hash", op.Key.Name[:8])
+			err = fmt.Errorf("pack %s saved under a name that is not its hash", op.Key.Name[:8])
 		}
-		s.files[op.Key] = op.Data
 		s.PacksSaved++
 	case backend.IndexFile:
-		if err := s.addIndex(op.Key.Name, op.Data, true); err != nil {
-			return err
-		}
-		s.files[op.Key] = op.Data
+		err = s.addIndex(op.Key.Name, op.Data, true)
 		s.IndexesSaved++
 	case backend.SnapshotFile:
 		if s.PacksBeforeSnap < 0 {
 			s.PacksBeforeSnap, s.IndexesBeforeSnap = s.PacksSaved, s.IndexesSaved
 		}
-		if err := s.checkSnapshot(op.Key.Name, op.Data); err != nil {
-			return err
-		}
-		s.files[op.Key] = op.Data
+		err = s.checkSnapshot(op.Key.Name, op.Data)
 		s.SnapshotsSaved++
-	default:
-		s.files[op.Key] = op.Data
 	}
-	return nil
+	s.files[op.Key] = op.Data
+	return err
 }
 
 // vCheckTraceC11 runs the ordering invariant over a whole log on top of base.
@@ -286,12 +281,13 @@ func vCheckTraceC11(d *vDecoderC11, base map[vbe.Key][]byte, log []vbe.Op, addOn
 	if err != nil {
 		return nil, err
 	}
+	var first error
 	for i, op := range log {
-		if err := s.Step(op, addOnly); err != nil {
-			return s, fmt.Errorf("trace op %d (%s): %w", i, op, err)
+		if err := s.Step(op, addOnly); err != nil && first == nil {
+			first = fmt.Errorf("trace op %d (%s): %w", i, op, err)
 		}
 	}
-	return s, nil
+	return s, first
 }
 
 func vOpsStringC11(log []vbe.Op) string {
